@@ -1,7 +1,8 @@
 #!/bin/bash
+ROOT=${VERIF_ROOT:-$(cd "$(dirname "$0")/.." && pwd)}
 # Build the whole Coq development (full .vo build). Usage: tools/coqbuild.sh [make-args...]
 set -e
-cd /verif/coq
+cd $ROOT/coq
 {
   echo "-Q theories RG"
   echo "-arg -w -arg -notation-overridden,-deprecated-hint-without-locality,-deprecated-instance-without-locality"
